@@ -140,18 +140,32 @@ def tokens_to_json(toks):
     return stack[0]
 
 
+def _build(schema, obj):
+    """Real node for one node JSON object, built with the schema's constructors (NodeType.create / Schema.text /
+    MarkType.create) and not with Node.from_json: the decoder is itself under test (C05), and a document built by a
+    faulty decoder would silently stop being the document the generator asked for."""
+    from prosemirror.model import Fragment
+    ms = obj.get("marks")
+    marks = [schema.marks[m["type"]].create(m.get("attrs")) for m in ms] if ms else None
+    if obj["type"] == "text":
+        return schema.text(str(obj["text"]), marks)
+    kids = obj.get("content")
+    content = Fragment([_build(schema, k) for k in kids]) if kids else Fragment.empty
+    return schema.nodes[obj["type"]].create(obj.get("attrs"), content, marks)
+
+
 def unproj(schema, toks, top_attrs=None):
     """Real document whose content is `toks`."""
-    from prosemirror.model import Node
     obj = {"type": schema.top_node_type.name, "content": tokens_to_json(toks)}
     if top_attrs:
         obj["attrs"] = top_attrs
-    return Node.from_json(schema, obj)
+    return _build(schema, obj)
 
 
 def unproj_fragment(schema, toks):
     from prosemirror.model import Fragment
-    return Fragment.from_json(schema, tokens_to_json(toks))
+    kids = tokens_to_json(toks)
+    return Fragment([_build(schema, k) for k in kids]) if kids else Fragment.empty
 
 
 def unproj_slice(schema, s):
